@@ -10,3 +10,46 @@
 (define-fun-rec envFold ((acc MapC) (es SLst)) MapC
   (ite ((_ is SNil) es) acc
        (envFold (ite (envHasEq (shd es)) (store acc (str.++ "$env:" (envKey (shd es))) (VStr (envVal (shd es)))) acc) (stl es))))
+; ---- references and interpolation (C13), from the property statement
+;   context of an evaluation: h (Document.Data of every document), data (the document being evaluated), ds (all
+;   documents), vars ($env:* and repeat variables)
+;   gwvE / gwvF    : a reference m: the path look-up (lookup.smt2), falling back to the variable of that name
+;   p2sE / p2sF    : the value of a string s at nesting depth d: $"..." is an interpolation, $env:X / $repeat a
+;                    variable, any other string itself
+;   refE / refF    : one {ref} of a template: the referenced value, evaluated again if it is a string, printed with %v
+;   interpE / interpF : $"...": the delimiters are dropped, every match {…} of the template is replaced by its refF and
+;                    all other text is kept (reSubst); a failing reference, or nesting beyond 1000, is an error
+(define-fun interpPat () String "{.*?}")
+(define-fun stripQ ((s String)) String (trimSuffix (trimPrefix s "$""") """"))
+(define-fun stripB ((m String)) String (trimSuffix (trimPrefix m "{") "}"))
+(define-fun isInterp ((s String)) Bool (and (str.prefixof "$""" s) (str.suffixof """" s)))
+(define-fun isVarRef ((s String)) Bool (or (str.prefixof "$env:" s) (= s "$repeat")))
+(define-fun gwvE ((h (Array Int Val)) (data Val) (ds RLst) (vars MapC) (m String)) Bool
+  (and (strPathE h data ds m) (= (select vars m) VAbsent)))
+(define-fun gwvF ((h (Array Int Val)) (data Val) (ds RLst) (vars MapC) (m String)) Val
+  (ite (strPathE h data ds m) (select vars m) (strPathF h data ds m)))
+(declare-fun p2sE ((Array Int Val) Val RLst MapC String Int) Bool)
+(declare-fun p2sF ((Array Int Val) Val RLst MapC String Int) Val)
+(define-fun refE ((h (Array Int Val)) (data Val) (ds RLst) (vars MapC) (m String) (d Int)) Bool
+  (or (gwvE h data ds vars (stripB m))
+      (and ((_ is VStr) (gwvF h data ds vars (stripB m))) (p2sE h data ds vars (sv (gwvF h data ds vars (stripB m))) (+ d 1)))))
+(define-fun refF ((h (Array Int Val)) (data Val) (ds RLst) (vars MapC) (m String) (d Int)) String
+  (fmtv (ite ((_ is VStr) (gwvF h data ds vars (stripB m)))
+             (p2sF h data ds vars (sv (gwvF h data ds vars (stripB m))) (+ d 1))
+             (gwvF h data ds vars (stripB m)))))
+(define-fun-rec anyRefE ((h (Array Int Val)) (data Val) (ds RLst) (vars MapC) (ms SLst) (d Int)) Bool
+  (ite ((_ is SNil) ms) false (or (refE h data ds vars (shd ms) d) (anyRefE h data ds vars (stl ms) d))))
+(define-fun-rec mapRef ((h (Array Int Val)) (data Val) (ds RLst) (vars MapC) (ms SLst) (d Int)) SLst
+  (ite ((_ is SNil) ms) SNil (SCons (refF h data ds vars (shd ms) d) (mapRef h data ds vars (stl ms) d))))
+(define-fun interpE ((h (Array Int Val)) (data Val) (ds RLst) (vars MapC) (s String) (d Int)) Bool
+  (or (> d 1000) (anyRefE h data ds vars (reMatches interpPat (stripQ s)) d)))
+(define-fun interpF ((h (Array Int Val)) (data Val) (ds RLst) (vars MapC) (s String) (d Int)) Val
+  (VStr (reSubst interpPat (stripQ s) (mapRef h data ds vars (reMatches interpPat (stripQ s)) d))))
+; AX p2s-def (recursion on the nesting depth, which only grows and is cut at 1000)
+(assert (forall ((h (Array Int Val)) (data Val) (ds RLst) (vars MapC) (s String) (d Int))
+  (! (and (= (p2sE h data ds vars s d)
+             (ite (isInterp s) (interpE h data ds vars s d) (ite (isVarRef s) (= (select vars s) VAbsent) false)))
+          (=> (not (p2sE h data ds vars s d))
+              (= (p2sF h data ds vars s d)
+                 (ite (isInterp s) (interpF h data ds vars s d) (ite (isVarRef s) (select vars s) (VStr s))))))
+     :pattern ((p2sE h data ds vars s d)) :pattern ((p2sF h data ds vars s d)))))
